@@ -478,6 +478,17 @@ func (sp *Stepper) fork(root string) (*Stepper, error) {
 func (sp *Stepper) pseudo(c Cmd) bool {
 	switch c.name() {
 	case "tear":
+		if c.str("how") == "cutlast" {
+			// the writer of the last batch died inside its write(2): the final line is cut in half
+			// (for a two-event batch such as claim + state this leaves the first event alone)
+			if b, err := os.ReadFile(sp.St.LogPath()); err == nil {
+				t := strings.TrimSuffix(string(b), "\n")
+				if i := strings.LastIndexByte(t, '\n'); i >= 0 {
+					_ = os.WriteFile(sp.St.LogPath(), []byte(t[:i+1+(len(t)-i-1)/2]), 0o644)
+				}
+			}
+			break
+		}
 		// a fragment without newline at the end of the log
 		if f, err := os.OpenFile(sp.St.LogPath(), os.O_APPEND|os.O_WRONLY, 0o644); err == nil {
 			frag := `{"type":"new_task","ts":"2026-01-01T00:00:00Z","data":{"id":"TORN22","uu`
